@@ -9,6 +9,18 @@ design_ref  DESIGN.md section
 """
 
 PROPS = {
+    "C12": {
+        "groups": ["writer"],
+        "design_ref": "§6 C12/C13",
+        "technique": "Lean 4 proof over a byte-exact model of Writer (all public methods, three compression modes, hints, rollback, templates, EDNS/TSIG reservations): invariant + rollback + size-limit + no-spurious-truncation + ext-RCODE theorems for all op sequences, refinement to an abstract message via an independent RFC 1035 decoder; model tied to src/message/writer.rs by whole-session differential correspondence; the spec (independent decoder + abstract semantics + pointer audit) is evaluated on the implementation's own octets for every generated session",
+        "strict_err": True,
+    },
+    "C13": {
+        "groups": ["writer"],
+        "design_ref": "§6 C12/C13",
+        "technique": "Lean 4 proof: every pointer emission of the Writer model is logged (ghost state); theorems for all op sequences and modes on where pointers are emitted and on their targets; components table checked against RFC 3597 §4; pointer audit (strictly backwards, onto a label start of an earlier name, not in SRV/CH-A/unknown RDATA, none while Disabled) on the implementation's octets with the independent decoder for every generated session",
+        "strict_err": True,
+    },
     "C14": {
         "groups": ["wire"],
         "design_ref": "§6 C14",
